@@ -416,12 +416,19 @@ def b_strpbrk(ex, st, args, ins):
         i += 1
 
 def _ctype(pred):
+    members = [c for c in range(256) if pred(c)]
+    # maximal runs of member byte values: the predicate is a disjunction of range tests (one two-way fork, not one per value)
+    runs = []
+    for c in members:
+        if runs and runs[-1][1] == c - 1: runs[-1][1] = c
+        else: runs.append([c, c])
     def f(ex, st, args, ins):
         c = args[0]
         if isinstance(c, int):
             return 1 if (c < 256 and pred(c)) else 0
-        c = ex.concretize(st, c, 32, 'ctype')   # small domain in practice (byte); split
-        return 1 if (c < 256 and pred(c)) else 0
+        w = c.size()
+        cond = z3.Or([(c == z3.BitVecVal(lo, w)) if lo == hi else z3.And(z3.UGE(c, z3.BitVecVal(lo, w)), z3.ULE(c, z3.BitVecVal(hi, w))) for lo, hi in runs])
+        return 1 if ex.concretize_bool(st, cond) else 0
     return f
 TABLE['isspace'] = _ctype(lambda c: c in (9, 10, 11, 12, 13, 32))
 TABLE['isdigit'] = _ctype(lambda c: 48 <= c <= 57)
